@@ -24,6 +24,11 @@ def shard(kind, n_cases, n_jobs, timeout=900, **params):
     return jobs
 
 
+def edges_jobs(tier):
+    """The directed edge families of pv/edges.py: 11 families x 4 (quick) or x 60 (thorough) cases."""
+    return shard('edges', 44, 2) if tier == 'quick' else shard('edges', 660, 6)
+
+
 def run_cases(job, fn, budget_s=None):
     """Run fn(rng, case, idx) for each case index of the job; a MonitorBug is a harness error that is
     already recorded in M.bugs - keep going so that one bug does not hide everything else."""
